@@ -14,6 +14,7 @@ import CSD.Lemmas.IdIter
 import CSD.Lemmas.PFCMeta
 import CSD.Lemmas.RPDACPrefix4
 import CSD.Lemmas.PFCPrefixD
+import CSD.Lemmas.FM8
 
 namespace CSD.Props.C04
 open CSD
@@ -95,5 +96,37 @@ theorem models_match_source_text :
     Generated.body_longestCommonPrefix = SourceText.body_longestCommonPrefix ∧
     Generated.body_PFC_getHeader = SourceText.body_PFC_getHeader ∧
     Generated.body_PFC_decodeNextString = SourceText.body_PFC_decodeNextString := ⟨rfl, rfl, rfl, rfl, rfl, rfl, rfl, rfl, rfl, rfl⟩
+
+
+/-! ### FMINDEX -/
+
+/-- `StringDictionaryFMINDEX::locatePrefix`: the backward search of `\1 p` returns the block of separator
+suffixes of the members that start with `p`; the limits `(l, r)` handed to the contiguous iterator satisfy
+`Spec.prefixIds S p = [l, …, r]`, and `(0, 0)` (the empty iterator) iff no member starts with `p`. -/
+theorem fmindex_prefix_search_exact {S : List Str} {L : List FM.Row} {d : FM.Dict} (hv : validDict S = true)
+    (hd : FM.DictOK S L d) (p : Str) (hp : p.all validByte = true) (hne : p ≠ []) :
+    ∃ l r, d.locatePrefix p = some (l, r) ∧
+      ((Spec.prefixIds S p = [] ∧ l = 0 ∧ r = 0) ∨
+       (Spec.prefixIds S p ≠ [] ∧ Spec.prefixIds S p = List.range' l (r + 1 - l) ∧ 1 ≤ l ∧ l ≤ r)) :=
+  FM.locatePrefix_spec hv hd p hp hne
+
+example : validDict [[0x61, 0x62], [0x61, 0x62, 0x63], [0x62]] = true ∧ (∃ L d, FM.DictOK [[0x61, 0x62], [0x61, 0x62, 0x63], [0x62]] L d) :=
+  ⟨by decide, _, _, FM.dictOK_buildDict _ 2⟩
+
+/-- The FM-index models were written against the current text of the C++ functions they mirror. -/
+theorem fm_models_match_source_text :
+    Generated.body_SSA_locate_id = SourceText.body_SSA_locate_id ∧
+    Generated.body_SSA_locateP = SourceText.body_SSA_locateP ∧
+    Generated.body_SSA_locate = SourceText.body_SSA_locate ∧
+    Generated.body_SSA_extract_id = SourceText.body_SSA_extract_id ∧
+    Generated.body_SSA_build_index = SourceText.body_SSA_build_index ∧
+    Generated.body_SSA_build_bwt = SourceText.body_SSA_build_bwt ∧
+    Generated.body_FMINDEX_ctor = SourceText.body_FMINDEX_ctor ∧
+    Generated.body_FMINDEX_locate = SourceText.body_FMINDEX_locate ∧
+    Generated.body_FMINDEX_extract = SourceText.body_FMINDEX_extract ∧
+    Generated.body_FMINDEX_locatePrefix = SourceText.body_FMINDEX_locatePrefix ∧
+    Generated.body_FMINDEX_locateSubstr = SourceText.body_FMINDEX_locateSubstr ∧
+    Generated.body_FMINDEX_build_ssa = SourceText.body_FMINDEX_build_ssa :=
+  ⟨rfl, rfl, rfl, rfl, rfl, rfl, rfl, rfl, rfl, rfl, rfl, rfl⟩
 
 end CSD.Props.C04
